@@ -272,6 +272,8 @@ type State struct {
 	Closed []*Stream
 	// transient: total released / refunded by the stream message executed last (nil if none)
 	LastRelease, LastRefund *big.Int
+	// Obs: free-form harness observations carried along a path (e.g. digests of terminal orders)
+	Obs map[string]string
 	// ObsLedger: per-stream ledger built from OBSERVED balance movements (harness state, C10)
 	ObsLedger map[string]*Ledger
 }
